@@ -101,6 +101,13 @@ def delete (zero : α) (s : Sl α) (i j : Int) : Option (Sl α) :=
     some (s.shrinkTo zero (s.items.take i.toNat ++ s.items.drop j.toNat))
   else none
 
+/-- The allocator's limit, in elements: a `make([]T, n)` / `slices.Grow(s, n)` asking for more than this
+many elements panics ("len out of range" — Go: `n * sizeof(T)` overflows or exceeds `maxAlloc = 2^48`
+bytes). Between the memory the machine has and that limit a real process dies instead of panicking; the
+harness therefore only asks for at most a few thousand or at least 2^61 elements, where the model is
+exact whatever the precise limit; theorems about allocating helpers carry `n ≤ allocLimit` explicitly. -/
+def allocLimit : Int := 17592186044416   -- 2^44
+
 /-- `slices.Grow`: "increases the slice's capacity, if necessary, to guarantee space for another n
 elements. After Grow(n), at least n elements can be appended to the slice without another
 allocation. If n is negative or too large to allocate the memory, Grow panics." (the new capacity is
@@ -108,6 +115,7 @@ only bounded from below by the documentation: the model takes the bound itself) 
 def grow (zero : α) (s : Sl α) (n : Int) : Option (Sl α) :=
   if n < 0 then none
   else if s.len + n.toNat ≤ s.cap then some s
+  else if n > allocLimit then none      -- "too large to allocate the memory"
   else some ⟨s.items ++ List.replicate n.toNat zero, s.items.length, true⟩
 
 /-- `slices.IndexFunc`: "returns the first index i satisfying f(s[i]), or -1 if none do." -/
